@@ -7,6 +7,7 @@ below (cross-checked against CPython's zoneinfo loader at generation time), neve
 synthetic zones the model is invented first and the bytes are written from it (writer of gen/C16.py)."""
 import os
 import struct
+import zlib
 
 from vcheck import case_line
 from common import *
@@ -141,6 +142,46 @@ def parse_posix(text):
     return ('A', std, dst, sd, st, ed, et)
 
 
+# ------------------------------------------------------------------ calendar (generator side)
+# gen/C16.py's helpers port a C++ algorithm written for truncating division and are off by one day
+# for years below 0 under Python's floor division; these are the floor-arithmetic versions.
+def days_from_civil(y, m, d):
+    y -= m <= 2
+    era = y // 400
+    yoe = y - era * 400
+    doy = (153 * ((m + 9) % 12) + 2) // 5 + d - 1
+    doe = yoe * 365 + yoe // 4 - yoe // 100 + doy
+    return era * 146097 + doe - 719468
+
+
+def year_of(t):
+    z = t // 86400 + 719468
+    era = z // 146097
+    doe = z - era * 146097
+    yoe = (doe - doe // 1460 + doe // 36524 - doe // 146096) // 365
+    doy = doe - (365 * yoe + yoe // 4 - yoe // 100)
+    mp = (5 * doy + 2) // 153
+    return yoe + era * 400 + (mp >= 10)
+
+
+def rule_day(day, y):
+    """days since the epoch of a rule date ('J', n) / ('N', n) / ('M', m, w, d) in year y"""
+    jan1 = days_from_civil(y, 1, 1)
+    leap = y % 4 == 0 and (y % 100 != 0 or y % 400 == 0)
+    if day[0] == 'J':
+        n = day[1]
+        return jan1 + n - 1 + (1 if leap and n >= 60 else 0)
+    if day[0] == 'N':
+        return jan1 + day[1]
+    _, m, w, d = day
+    first = days_from_civil(y, m, 1)
+    occ = first + (d - (first + 4) % 7) % 7 + 7 * (w - 1)     # 1970-01-01 was a Thursday; Sunday = 0
+    nxt = days_from_civil(y + (m == 12), m % 12 + 1, 1)
+    if occ >= nxt:
+        occ -= 7
+    return occ
+
+
 # ------------------------------------------------------------------ zone model (generator side)
 class ZM:
     """first offset, [(instant, offset from then on)], rule (None | ('F', off) | ('A', ...))"""
@@ -159,11 +200,17 @@ class ZM:
             rv = ('some', [r[1], r[2], day_val(r[3]), r[4], day_val(r[5]), r[6]])
         return [self.first, [[t, o] for t, o in self.trans], rv]
 
+    def tagged(self, src):
+        """ZM with the checksum that binds it to the zone source of the case line"""
+        from vcheck import show_val
+        v = self.val()
+        return v + [zlib.adler32((show_val(src) + ' ' + show_val(v)).encode('ascii'))]
+
     def rule_events(self, y):
         """[(instant, offset before, offset after)] of the rule in year y"""
         _, std, dst, sd, st, ed, et = self.rule
-        return [(g16.rule_day(sd, y) * 86400 + st - std, std, dst),
-                (g16.rule_day(ed, y) * 86400 + et - dst, dst, std)]
+        return [(rule_day(sd, y) * 86400 + st - std, std, dst),
+                (rule_day(ed, y) * 86400 + et - dst, dst, std)]
 
     def windows(self):
         cur, ws = self.first, []
@@ -194,7 +241,7 @@ class ZM:
             if ok and self.trans and self.rule and self.rule[0] == 'A':
                 tn, on = self.trans[-1]
                 p = self.trans[-2][1] if len(self.trans) > 1 else self.first
-                y = g16.year_of(tn)
+                y = year_of(tn)
                 for yy in (y - 1, y, y + 1):
                     for r, before, after in self.rule_events(yy):
                         lo, hi = r + min(before, after), r + max(before, after)
@@ -208,7 +255,7 @@ class ZM:
         if not self._table_spaced:
             return False
         if self.rule and self.rule[0] == 'A':
-            return self.rule_regular(g16.year_of(w))
+            return self.rule_regular(year_of(w))
         return True
 
 
@@ -312,7 +359,7 @@ def zone_points(zm, rng, wide_every, years, sparse):
 def rule_years(zm, base):
     ys = set(base)
     if zm.trans:
-        y0 = g16.year_of(max(min(zm.trans[-1][0], 10**11), -10**11))
+        y0 = year_of(max(min(zm.trans[-1][0], 10**11), -10**11))
         ys.update([y0 - 1, y0, y0 + 1, y0 + 2])
     return sorted(ys)
 
@@ -329,11 +376,11 @@ def show(v):
 
 def emit(src, zm, ins, walls, batch, rt_share, rng):
     """case lines of one zone; the zone part of the line is rendered once"""
-    head = ' ' + show(src) + ' ' + show(zm.val()) + ' '
+    head = ' ' + show(src) + ' ' + show(zm.tagged(src)) + ' '
     memo = {}
 
     def spaced(x):
-        y = g16.year_of(x) if zm.rule and zm.rule[0] == 'A' else 0
+        y = year_of(x) if zm.rule and zm.rule[0] == 'A' else 0
         if y not in memo:
             memo[y] = zm.spaced(x)
         return memo[y]
@@ -345,7 +392,7 @@ def emit(src, zm, ins, walls, batch, rt_share, rng):
         reg = {}
 
         def regular(t):
-            y = g16.year_of(t)
+            y = year_of(t)
             if y not in reg:
                 reg[y] = zm.rule_regular(y)
             return reg[y]
@@ -354,14 +401,14 @@ def emit(src, zm, ins, walls, batch, rt_share, rng):
     else:
         yield from lines('lz.at', ins)
     sp = [w for w in walls if spaced(w)]
-    un = [w for w in walls if not spaced(w)]
+    un = [w for w in walls if not spaced(w)][::3]      # the known-finding class: a third is plenty
     for ws, op, sel in ((sp, 'lz.loc', 'lz.sel'), (un, 'lz.uloc', 'lz.usel')):
         yield from lines(op, ws)
         yield from lines(sel, ws[::4])
     rts = ins if rt_share >= 1 else [x for x in ins if rng.random() < rt_share]
     # the wall reading of an instant is within 26 h of it: classify by the instant
     yield from lines('lz.rt', [t for t in rts if spaced(t)])
-    yield from lines('lz.urt', [t for t in rts if not spaced(t)])
+    yield from lines('lz.urt', [t for t in rts if not spaced(t)][::3])
 
 
 # ------------------------------------------------------------------ synthetic zones
@@ -438,7 +485,7 @@ def synth_zone(rng):
         t = z.trans[-1][0]
         if rule.dst and rng.random() < 0.5:
             # the last table transition is a transition of the rule, as in real files
-            y = g16.year_of(t)
+            y = year_of(t)
             s, e = rule.switches(y)
             t2 = rng.choice([s, e])
             if (len(z.trans) < 2 or z.trans[-2][0] < t2) and lo <= t2 <= hi:
@@ -477,7 +524,7 @@ def ordered_cases(tier, rng):
     base_years = [2037, 2038, 2100, 2500, 10000]
     for k, (name, data, zm) in enumerate(zones):
         years = rule_years(zm, base_years + ([rng.randint(2039, 2099)] if quick else list(range(2039, 2100, 3))))
-        ins, walls = zone_points(zm, rng, (24 if quick else 1), years, 6 if quick else 60)
+        ins, walls = zone_points(zm, rng, (24 if quick else 4), years, 6 if quick else 60)
         if quick:
             # every transition of every zone is visited on the thorough tier; quick keeps a rotating
             # sixth of the points (whole +-3 s windows are still covered across neighbouring zones
@@ -486,13 +533,13 @@ def ordered_cases(tier, rng):
             walls = walls[k % 6::6]
         yield from emit(data, zm, ins, walls, batch_for(len(data), quick), 0.5 if quick else 1, rng)
     # synthetic TZif
-    for _ in range(700 if quick else 30000):
+    for _ in range(700 if quick else 8000):
         data, zm = synth_zone(rng)
         years = rule_years(zm, [rng.choice([1971, 2000, 2024, 2100, 2500, 10000])])
         ins, walls = zone_points(zm, rng, 3, years, 4)
         yield from emit(data, zm, ins, walls, batch_for(len(data), quick), 1, rng)
     # POSIX rules through the TZ-string route
-    for _ in range(1000 if quick else 30000):
+    for _ in range(1000 if quick else 8000):
         ext = rng.random() < 0.4
         r = synth_rule(rng, ext)
         text = g16.fmt_rule(r, rng.random() < 0.2)
@@ -511,7 +558,31 @@ def ordered_cases(tier, rng):
         ins, walls = zone_points(zm, rng, 0, rule_years(zm, [2100]), 3)
         rng.shuffle(ins)
         rng.shuffle(walls)
-        yield case_line('lz.env', data, zm.val(), 0, ins[:20])
+        yield case_line('lz.env', data, zm.tagged(data), 0, ins[:20])
         ws = [w for w in walls[:40] if zm.spaced(w)][:20]
         if ws:
-            yield case_line('lz.env', data, zm.val(), 1, ws)
+            yield case_line('lz.env', data, zm.tagged(data), 1, ws)
+
+
+def refine(cases, impl, model, verdicts, run_both):
+    """A case line is a batch of lookups on one zone, and the judge's domain is decided per lookup.
+    Every batch in which the implementation and the model differ, or which the judge rejects, is
+    re-run as its individual lookups (one point per line), so that a difference at a point outside
+    the property's domain is reported as drift and a rejected point is shrunk and matched on its own."""
+    idx = [i for i in range(len(cases)) if impl[i] != model[i] or verdicts[i].startswith('bad')]
+    if not idx:
+        return cases, impl, model, verdicts
+    singles = []
+    for i in idx:
+        head, pts = cases[i].rsplit(' ', 1)
+        inner = pts[1:-1]
+        if not inner or ',' not in inner:
+            singles.append(cases[i])
+            continue
+        for p in inner.split(','):
+            singles.append(head + ' (' + p + ')')
+    si, sm, sv = run_both(singles)
+    drop = set(idx)
+    keep = [i for i in range(len(cases)) if i not in drop]
+    return ([cases[i] for i in keep] + singles, [impl[i] for i in keep] + list(si),
+            [model[i] for i in keep] + list(sm), [verdicts[i] for i in keep] + list(sv))
